@@ -31,15 +31,10 @@ impl<'js> IntoJs<'js> for ActValue {
             serde_json::Value::Null => JsValue::new_null(ctx.clone()),
             serde_json::Value::Bool(v) => JsValue::new_bool(ctx.clone(), v),
             serde_json::Value::Number(v) => {
-                if v.is_i64() {
-                    let v = v.as_i64().unwrap_or_default() as i32;
-                    JsValue::new_int(ctx.clone(), v)
-                } else if v.is_f64() {
-                    let v = v.as_f64().unwrap_or_default();
-                    JsValue::new_float(ctx.clone(), v)
-                } else {
-                    let v = v.as_i64().unwrap_or_default() as i32;
-                    JsValue::new_int(ctx.clone(), v)
+                // a js int holds 32 bits; larger integers become a js number (exact up to 2^53)
+                match v.as_i64().map(i32::try_from) {
+                    Some(Ok(v)) => JsValue::new_int(ctx.clone(), v),
+                    _ => JsValue::new_float(ctx.clone(), v.as_f64().unwrap_or_default()),
                 }
             }
             serde_json::Value::String(v) => {
